@@ -3,7 +3,8 @@ import SqlObjVerif.Lemmas.FailChain
 /-!
 C06, the TRANSLATED `InheritableSQLObject._create` against the `Fail` machinery — part (a), the `Fail` side:
 `Fail.createInh` (continuation-passing) in direct style (`inhRun`: the parent chain first, then the level's own tree,
-then the clean-up), `createInh_eq_inhRun` / `createInh_done`.
+then the clean-up), `createInh_eq_inhRun` / `createInh_done`; a `Chain` has pairwise distinct classes (`chain_nodup`);
+the child level's tree runs as `Fail.createProg` with the explicit id (`ownTree_eq_createProg`).
 -/
 namespace SqlObjVerif.Fail.InhX
 
@@ -158,4 +159,90 @@ theorem createInh_done (sch inj) (fuel : Nat) (L : List (Nat × List (Nat × In)
     run sch inj (createInh sch fuel L fun _ => .done) s = inhRun sch inj fuel L s := by
   rw [createInh_eq_inhRun sch inj fuel L hL, bindRun_done]
 
+
+/-! ### a chain has pairwise distinct classes -/
+
+theorem chain_tail (sch : Schema) (c : Nat) (L : List Nat) (h : Chain sch (c :: L)) : Chain sch L := by
+  cases L with
+  | nil => trivial
+  | cons p L => exact h.2
+
+theorem chain_unique (sch : Schema) : ∀ (L1 : List Nat) (c : Nat) (L2 : List Nat),
+    Chain sch (c :: L1) → Chain sch (c :: L2) → L1 = L2 := by
+  intro L1
+  induction L1 with
+  | nil =>
+    intro c L2 h1 h2
+    cases L2 with
+    | nil => rfl
+    | cons p L2 => simp only [Chain] at h1 h2; rw [h1] at h2; exact absurd h2.1 (by simp)
+  | cons p L1 ih =>
+    intro c L2 h1 h2
+    cases L2 with
+    | nil => simp only [Chain] at h1 h2; rw [h2] at h1; exact absurd h1.1 (by simp)
+    | cons p' L2 =>
+      simp only [Chain] at h1 h2
+      have : p = p' := by have := h1.1; rw [h2.1] at this; exact (Option.some.inj this).symm
+      subst this
+      rw [ih p L2 h1.2 h2.2]
+
+theorem chain_suffix (sch : Schema) : ∀ (A : List Nat) (c : Nat) (B : List Nat),
+    Chain sch (A ++ c :: B) → Chain sch (c :: B) := by
+  intro A
+  induction A with
+  | nil => intro c B h; exact h
+  | cons a A ih => intro c B h; exact ih c B (chain_tail sch a _ h)
+
+theorem chain_nodup (sch : Schema) : ∀ (L : List Nat), Chain sch L → L.Nodup := by
+  intro L
+  induction L with
+  | nil => intro _; exact List.nodup_nil
+  | cons c L ih =>
+    intro h
+    rw [List.nodup_cons]
+    refine ⟨?_, ih (chain_tail sch c L h)⟩
+    intro hc
+    obtain ⟨A, B, rfl⟩ := List.append_of_mem hc
+    have h2 := chain_suffix sch (c :: A) c B h
+    have := chain_unique sch _ c _ h h2
+    have := congrArg List.length this
+    simp at this
+    omega
+
+/-! ### the child level's tree is `Fail.createProg` with the explicit id -/
+
+theorem stmt_congr (sch inj) (q : Stmt) (k1 k2 : Prog) (s : St)
+    (h : ∀ s2, exec sch q { s with n := s.n + 1, log := q :: s.log } = .ok s2 →
+      run sch inj k1 (bump { s with n := s.n + 1, log := q :: s.log } s2) =
+      run sch inj k2 (bump { s with n := s.n + 1, log := q :: s.log } s2)) :
+    run sch inj (.stmt q k1) s = run sch inj (.stmt q k2) s := by
+  simp only [run]
+  split
+  · rfl
+  · split
+    · rfl
+    · rename_i s2 he
+      exact h s2 he
+
+/-- `SQLObject._create(pid, **kw)`: the tree `createInh` uses for a child level runs as `Fail.createProg` with the
+    explicit id `pid` does -/
+theorem ownTree_eq_createProg (sch inj) (c pid : Nat) (kw : List (Nat × In)) (s : St) :
+    run sch inj (ownTree sch c pid kw) s = run sch inj (Fail.createProg sch c (some pid) false kw [] fun _ => .done) s := by
+  unfold ownTree Fail.createProg
+  show run sch inj (validates kw _) s = run sch inj (validates kw _) s
+  rw [run_validates, run_validates]
+  split
+  · simp only [run_precheck, hasUnknown, List.any_nil, Bool.false_eq_true, if_false, run_extrasPure, extrasErr]
+    apply stmt_congr
+    intro s2 he
+    rcases exec_insert_cases sch c (some pid) (valsOf (clsOf sch c).cols.length (asgOf kw))
+      { s with n := s.n + 1, log := _ :: s.log } with ⟨e, he'⟩ | ⟨s2', he', _, hl, _, _⟩
+    · rw [he'] at he; cases he
+    · rw [he'] at he
+      cases he
+      have hid : (bump { s with n := s.n + 1, log := Stmt.insert c (some pid) (valsOf (clsOf sch c).cols.length (asgOf kw)) :: s.log } s2).lastId = pid := by
+        rw [bump_lastId, hl]; rfl
+      show _ = run sch inj (.mem (.addInst c (bump _ s2).lastId _) <| .stmt (.select c) <| .mem (.reload c (bump _ s2).lastId) <| .done) _
+      rw [hid]
+  · rfl
 end SqlObjVerif.Fail.InhX
